@@ -49,6 +49,12 @@ func (p *FloatingIPPlugin) Bind(args *schedulerapi.ExtenderBindingArgs) error {
 		// see https://github.com/kubernetes/kubernetes/pull/60332
 		return fmt.Errorf("pod which doesn't want floatingip have been sent to plugin")
 	}
+	if args.PodUID != "" && pod.UID != "" && pod.UID != args.PodUID {
+		// the pod cache lags behind the apiserver and still holds an earlier pod with the same name, binding with it
+		// would store the uid of the old pod with the ip of the new one
+		return fmt.Errorf("pod %s uid %s in cache mismatches uid %s of the pod to bind, waiting for cache to sync",
+			util.Join(args.PodName, args.PodNamespace), string(pod.UID), string(args.PodUID))
+	}
 	defer p.lockPod(pod.Name, pod.Namespace)()
 	keyObj, err := util.FormatKey(pod)
 	if err != nil {
@@ -121,7 +127,13 @@ func (p *FloatingIPPlugin) allocateIP(key string, nodeName string, pod *corev1.P
 	}
 	policy := parseReleasePolicy(&pod.ObjectMeta)
 	attr := floatingip.Attr{Policy: policy, NodeName: nodeName, Uid: string(pod.UID)}
-	for _, ipInfo := range ipInfos {
+	// check all ips of this key, not only those within the requested ranges: resync and release work on all ips of a key,
+	// an ip left by an earlier pod with the same name for other ranges must be cleaned up before this pod is bound
+	allIPInfos, err := p.ipam.ByKeyAndIPRanges(key, nil)
+	if err != nil {
+		return nil, fmt.Errorf("failed to query floating ip by key %s: %v", key, err)
+	}
+	for _, ipInfo := range allIPInfos {
 		// check if uid missmatch, if we delete a statfulset/tapp and creates a same name statfulset/tapp immediately,
 		// galaxy-ipam may receive bind event for new pod early than deleting event for old pod
 		if ipInfo != nil && ipInfo.PodUid != "" && ipInfo.PodUid != string(pod.GetUID()) {
